@@ -149,7 +149,22 @@ def shrink_candidates(inp):
 
 
 MANIFEST = {
-    "level_claimed": {"category": "proof", "text": "see coq/C05/README.md", "design_ref": "DESIGN.md §5 C05"},
-    "level_note": "",
-    "technique": "Coq proof (arithmetic + ledger invariants) + generated facts + differential correspondence on ABCI measurements",
+    "level_claimed": {
+        "category": "proof",
+        "text": ("Coq theorems for ALL fee parameters, gas limits, values, bank states and EVM effect scripts: "
+                 "C05_net_payment_bounds (prepay - refund, both truncated to unibi, is within 1 unibi of gasUsed x effective price, "
+                 ">= 0 and <= prepay), C05_supply_never_increases (any history; floor-sum argument over the commit model with "
+                 "mint/burn as in SetAccBalance), C05_closed_system, C05_supply_exact_when_whole_unibi, C05_payer_equals_collector, "
+                 "C05_failed_tx_changes_only_fee_and_nonce, all obtained from C05_deliver_satisfies_P over a ledger model of ante + "
+                 "msg server + commit + refund. Constants and the provenance of prepayment/refund are re-extracted from /repo on "
+                 "every run (Gen/C05Facts.v); the model is compared with real DeliverTx measurements (supply, 9 balances, GasUsed) "
+                 "and the proved-sound checker Pb is evaluated on those measurements."),
+        "design_ref": "DESIGN.md §5 C05",
+    },
+    "level_note": ("The EVM interpreter is not modelled: gasUsed, intrinsic gas and the script of effects of a successful run "
+                   "(known for the driver's hand-assembled contracts) are parameters; theorem hypotheses: 0 <= gasUsed <= gasLimit, "
+                   "the run does not touch the fee collector, balances >= 0. The EIP-3529 refund cap is tied by a generated fact "
+                   "only. Interpretation: a tx failing after ante without a response pays the whole prepayment (stated in P). "
+                   "Trusted: Coq kernel + vm_compute, the extractor, the driver (bank keeper reads, event parsing), the plugin."),
+    "technique": "Coq proof (integer arithmetic + ledger sum invariants) + generated facts + differential correspondence on ABCI measurements",
 }
